@@ -122,6 +122,7 @@ func gfCases() []*gfCase {
 		cases = append(cases, &c)
 	}
 	add("multi", gfCase{})
+	add("pkgs", gfCase{})
 	add("multi:rerun", gfCase{prerun: true})
 	add("file:one", gfCase{flags: []string{"-file=foo.go"}})
 	add("file:two", gfCase{flags: []string{"-file=foo.go", "-file=a.b.go"}})
@@ -211,6 +212,11 @@ func runGF(cfg *config, o *out) error {
 				files["p/"+f.name] = "// Code generated by \"stringer -type=Color\"; DO NOT EDIT.\n\n" + files["p/"+f.name]
 			}
 		}
+		if c.id == "pkgs" {
+			// a second package whose cff file has the same base name as one of package p
+			files["q/doc.go"] = "// Package q is a scratch package.\npackage q\n"
+			files["q/foo.go"] = gfSource("q", "FnQ", true, true)
+		}
 		if c.err = writeFiles(root, files); c.err != nil {
 			return
 		}
@@ -230,7 +236,11 @@ func runGF(cfg *config, o *out) error {
 			c.err = err
 			return
 		}
-		args := append(append([]string{}, c.flags...), "./p")
+		pattern := "./p"
+		if c.id == "pkgs" {
+			pattern = "./..."
+		}
+		args := append(append([]string{}, c.flags...), pattern)
 		tmp := filepath.Join(childTmp, fmt.Sprintf("gf%02d", i))
 		if c.err = os.MkdirAll(tmp, 0o755); c.err != nil {
 			return
@@ -268,6 +278,18 @@ func runGF(cfg *config, o *out) error {
 			// file in the temp dir: worth a note, whatever the model says.
 			xLines = append(xLines, fmt.Sprintf("N FS %s exit=%d modified=%s deleted=%s tmp=%d",
 				c.id, c.exit, joinOrDash(c.modified, ","), joinOrDash(c.deleted, ","), c.tmpLeft))
+		}
+		if c.id == "pkgs" {
+			// every cff file of every package matched by the pattern gets its output, whatever its base name
+			have := map[string]bool{}
+			for _, f := range c.created {
+				have[f] = true
+			}
+			for _, want := range []string{"p/foo_gen.go", "q/foo_gen.go"} {
+				if !have[want] || c.exit != 0 {
+					xLines = append(xLines, fmt.Sprintf("X GF pkgs: cff ./... exit=%d did not write %s (created %v)", c.exit, want, c.created))
+				}
+			}
 		}
 		if c.single {
 			in := c.files[0]
